@@ -135,13 +135,6 @@ theorem single3 {X Y Z : Peg} {fx fy fz : Char → Bool} (hX : Single X fx) (hY 
 
 /-! ### `copula` -/
 
-/-- the README grammar's copula pattern at the head of a string -/
-def gcopB : Str → Bool
-  | a :: b :: c :: _ =>
-    (psB a && '-' == b && psB c) || (psB a && '=' == b && psB c) || ('=' == a && psB b && '>' == c) ||
-    ('<' == a && psB b && '>' == c)
-  | _ => false
-
 def copulaBody : Peg :=
   .alt (.alt (.alt (.seq (.seq (.ref "punct_sym") (.lit ['-'])) (.ref "punct_sym"))
                    (.seq (.seq (.ref "punct_sym") (.lit ['='])) (.ref "punct_sym")))
@@ -244,9 +237,6 @@ theorem single_conn_tail : Single (.seq (.neg (.lit [','])) (.ref "punct_sym")) 
     have h1 : Ev RG true (.neg (.lit [','])) [] (some ([], [])) := Ev.neg_none _ _ _ (ev_lit1_nil true ',')
     exact ev_seqA_no h1 single_punct_sym.nil⟩
 
-/-- a connecter of the format: punctuation / symbol characters, no comma -/
-def gConnB (conn : Str) : Bool := !conn.isEmpty && conn.all (fun c => psB c && !(',' == c))
-
 theorem ev_connecter (conn rest : Str) (h : gConnB conn = true) :
     Ev RG false (.ref "connecter") (conn ++ ',' :: rest) (some (',' :: rest, [.node "connecter" conn []])) := by
   cases conn with
@@ -287,16 +277,6 @@ theorem rule_atom_content :
     RG.rule? "atom_content" = some { name := "atom_content", mod := .atomic, body := atomContentBody } := by
   decide +kernel
 
-/-- the first alternative of `copula` (`punct_sym "-" punct_sym`), the only one that can begin inside a name -/
-def cop1B : Str → Bool
-  | a :: b :: c :: _ => psB a && '-' == b && psB c
-  | _ => false
-
-/-- no README-grammar copula begins inside the name -/
-def noCopIn : Str → Bool
-  | [] => true
-  | c :: cs => !cop1B (c :: cs) && noCopIn cs
-
 /-- what may follow a term in the ASCII formatter's output: nothing; a closer, separator or punctuation mark;
 or one blank and then something that is neither blank nor `_` -/
 def stopGB : Str → Bool
@@ -321,9 +301,6 @@ theorem stopG_head {rest : Str} (h : stopGB rest = true) : ∀ c ∈ rest.head?,
     · subst hc; exact ⟨ac_sp, by decide⟩
     · simp only [beq_iff_eq, hc, if_false, Bool.and_eq_true, Bool.not_eq_true', beq_eq_false_iff_ne] at h
       exact ⟨h.1.1, h.1.2⟩
-
-/-- the tail of a name: name characters, no grammar copula inside, not ending in `-` -/
-def tailOKB (v : Str) : Bool := v.all acB && noCopIn v && !(v.getLast? == some '-')
 
 theorem tailOK_cons {x : Char} {v : Str} (h : tailOKB (x :: v) = true) (hv : v ≠ []) : tailOKB v = true := by
   simp only [tailOKB, List.all_cons, noCopIn, Bool.and_eq_true, Bool.not_eq_true'] at h ⊢
@@ -410,12 +387,6 @@ theorem many_content (v rest : Str) (acc : List PTree) (hv : v = [] ∨ tailOKB 
       · exact Or.inr (tailOK_cons hxv e)
     exact Many.step true _ (x :: v ++ rest) (x :: v ++ rest) (v ++ rest) ([] ++ []) acc (rest, acc) (Skip.atomic _)
       hstep (by simp) (by simpa using ih hv')
-
-/-- a name the grammar reads as one `atom_content`: it begins with a letter or a number, consists of name
-characters, does not end in `-`, and no `punct_sym "-" punct_sym` pattern (the grammar's first copula
-alternative) occurs in it -/
-def gNameOKB (name : Str) : Bool :=
-  (match name with | c :: _ => lnB c | [] => false) && tailOKB name
 
 theorem ev_atom_content (name rest : Str) (h : gNameOKB name = true) (hr : stopGB rest = true) :
     Ev RG false (.ref "atom_content") (name ++ rest) (some (rest, [.node "atom_content" name []])) := by
